@@ -5,6 +5,7 @@
 #include <stdlib.h>
 #include <string.h>
 #include <float.h>
+#include <limits.h>
 #include <errno.h>
 
 #include "convert.h"
@@ -237,6 +238,7 @@ extern MPT_INTERFACE(metatype) *_mpt_iterator_range(MPT_STRUCT(value) *val)
 	
 	if (val) {
 		const char *str;
+		double count;
 		int ret;
 		
 		if (val->_type == MPT_ENUM(TypeIteratorPtr)) {
@@ -286,7 +288,13 @@ extern MPT_INTERFACE(metatype) *_mpt_iterator_range(MPT_STRUCT(value) *val)
 			errno = ERANGE;
 			return 0;
 		}
-		iv = (r.max - r.min) / step;
+		/* empty range or non-finite parameters have no interval count */
+		count = (r.max - r.min) / step;
+		if (!(count >= 1.0) || count >= INT_MAX) {
+			errno = ERANGE;
+			return 0;
+		}
+		iv = count;
 	}
 	if (!(data = malloc(sizeof(*data)))) {
 		return 0;
